@@ -55,10 +55,10 @@ R.ufunc("aead_seal", ["bytes", "bytes", "bytes", "int", "bytes", "bytes"], "byte
 R.ufunc("hp_apply", ["bytes", "bytes", "bytes", "bytes"], "bytes")                   # (cipher, key, plain header, protected payload) -> packet
 
 _T = dict(trusted=True)
-R.contract("hkdf_expand_label", params={"algorithm": "HashAlgorithm", "secret": "bytes", "label": "bytes", "hash_value": "bytes", "length": "int"}, returns="bytes",
+R.contract("hkdf_expand_label", params={"algorithm": "HashAlgorithm", "secret": "bytes", "label": "bytes", "hash_value": "bytes", "length": "int"}, returns="bytes", requires=["secret is not None"],
            ensures=["same(result, hkdf_label(algorithm, secret, label, hash_value, length))", "len(result) == length"],
            note="tls.hkdf_expand_label over cryptography's HKDFExpand: uninterpreted", **_T)
-R.contract("cipher_suite_hash", params={"cipher_suite": "int"}, returns="HashAlgorithm", ensures=["result == hash_of_suite(cipher_suite)"], note="tls.cipher_suite_hash: table lookup, uninterpreted", **_T)
+R.contract("cipher_suite_hash", params={"cipher_suite": "int"}, returns="HashAlgorithm", requires=["cipher_suite is not None"], ensures=["result == hash_of_suite(cipher_suite)"], note="tls.cipher_suite_hash: table lookup, uninterpreted", **_T)
 
 R.contract("AEAD.__init__", raises={"CryptoError": None}, modifies=["self.g_cipher", "self.g_key", "self.g_iv"],
            ensures=["same(self.g_cipher, cipher_name) and same(self.g_key, key) and same(self.g_iv, iv)"],
